@@ -285,11 +285,33 @@ def gen_exclude_case(rng, n):
             "placement": placement, "fates": changes, "ref_target": ref_target, "fk_from_db_only": fk_from_db_only}
 
 
+SUB_FATES = ["same", "addcol", "addidx", "retype", "fkcol-same", "fkcol-addcol", "idxcol-same"]
+
+
 def gen_sub_case(rng, n):
-    """Exclusion of a column and an index inside a managed table."""
+    """Exclusion of a column and an index inside a managed table. fkcol / idxcol: the excluded column is declared on both
+    sides and carries a foreign key / is the key of a (not excluded) index; nothing else differs (or a column is added)."""
+    fate = SUB_FATES[n % len(SUB_FATES)]
+    other = gen_plain(rng, "m_o", "mi")
+    if fate.startswith("fkcol") or fate.startswith("idxcol"):
+        ref = table("m_r", [("a", "text", False)])
+        t = table("m_s", [("a", "text", False), ("b", "integer", False), ("secret", "integer", False)], idx=[["ix_secret", ["a"], False]])
+        nodemand = {"idx": [], "fks": []}
+        if fate.startswith("fkcol"):
+            t["fks"].append(["fk_sec", ["secret"], "m_r", ["id"]])
+            nodemand["fks"].append((("secret",), "m_r", ("id",)))
+        else:
+            t["idx"].append(["sx_col", ["secret"], False])
+            nodemand["idx"].append("sx_col")
+        w = copy.deepcopy(t)
+        if fate.endswith("addcol"):
+            w["cols"].append(["added", "text", False])
+        pats = [["m_s.secret", "*.secret", "m_s.secret[type=column]", "m_s.s?cret"][(n // len(SUB_FATES)) % 4],
+                rng.choice(["m_s.ix_secret", "m_s.ix_*[type=index]", "*.ix_secret[type=index]"])]
+        return {"n": n, "kind": "exclude-sub", "cur": [ref, t, other], "want": [copy.deepcopy(ref), w, copy.deepcopy(other)], "patterns": pats,
+                "fate": fate, "nodemand": nodemand, "secret_in_file": True}
     t = table("m_s", [("a", "text", False), ("b", "integer", False), ("secret", "text", False)], idx=[["ix_secret", ["a"], False]])
     w = table("m_s", [("a", "text", False), ("b", "integer", False)])
-    fate = ["same", "addcol", "addidx", "retype"][n % 4]
     if fate == "addcol":
         w["cols"].append(["added", "text", False])
     elif fate == "addidx":
@@ -298,7 +320,6 @@ def gen_sub_case(rng, n):
         col(w, "b")[1] = "text"
     pats = [rng.choice(["m_s.secret", "*.secret", "m_s.secret[type=column]", "m_s.s?cret"]),
             rng.choice(["m_s.ix_secret", "m_s.ix_*[type=index]", "*.ix_secret[type=index]"])]
-    other = gen_plain(rng, "m_o", "mi")
     return {"n": n, "kind": "exclude-sub", "cur": [t, other], "want": [w, copy.deepcopy(other)], "patterns": pats, "fate": fate}
 
 
@@ -367,7 +388,17 @@ def gen_skip_case(rng, n):
         skip = sorted(set(rng.sample(present, rng.randint(1, min(3, len(present)))) + rng.sample(SKIP_KINDS, rng.randint(0, 2))))
     if n % 3 == 0 and "drop_column" in present:
         skip = sorted(set(skip) | {"drop_column"})
-    return {"n": n, "kind": "skip", "cur": cur, "want": want, "atoms": atoms, "skip": sorted(skip)}
+    placement = PLACEMENTS[n % 5]
+    if placement.startswith("global"):
+        # the inherited policy must visibly protect something: s_gone exists for these n (n % 5 != 4)
+        skip = sorted(set(skip) | {"drop_table"})
+    case = {"n": n, "kind": "skip", "cur": cur, "want": want, "atoms": atoms, "skip": sorted(skip), "placement": placement}
+    if placement == "global+env-skip":
+        g = rng.sample(sorted(skip), rng.randint(1, len(skip)))
+        if rng.random() < 0.5:
+            g.append("rename_table")  # cannot occur
+        case["global_skip"] = sorted(g)
+    return case
 
 
 def expected_after_skip(case):
@@ -407,9 +438,33 @@ def expected_after_skip(case):
     return exp, skipped, rebuild
 
 
-def project_file(skip, global_block):
-    inner = "skip {\n%s}\n" % "".join("  %s = true\n" % k for k in skip)
+PLACEMENTS = ["env", "global", "global+env-diff", "global+env-skip", "env+unrelated"]
+
+
+def skip_inner(skip):
+    return "skip {\n%s}\n" % "".join("  %s = true\n" % k for k in skip)
+
+
+def project_file(case):
+    """atlas.hcl of a skip case. Where the policy is declared:
+      env             diff { skip {…} } inside the env block
+      global          project-level diff { skip {…} }, the env has no diff block
+      global+env-diff project-level diff { skip {…} }, the env has its own diff block WITHOUT a skip block (documented in
+                      project.go (*Diff).Extend: the env inherits the global skip block)
+      global+env-skip both declare a skip block; the global one only lists kinds the env lists as well (or kinds that do not
+                      occur), so that the effective policy is the env's under "env wins" and under "merge" alike
+      env+unrelated   as env, with variable / locals / lint blocks next to it and a --var on the command line"""
+    pl = case["placement"]
     env = '  url = "sqlite://x.db"\n  src = "file://want.hcl"\n  dev = "sqlite://dev?mode=memory"\n'
-    if global_block:  # a global diff block, inherited by the env
+    inner = skip_inner(case["skip"])
+    if pl == "global":
         return 'diff {\n%s}\nenv "e" {\n%s}\n' % (inner, env)
+    if pl == "global+env-diff":
+        return 'diff {\n%s}\nenv "e" {\n%sdiff {\nconcurrent_index {\ncreate = true\n}\n}\n}\n' % (inner, env)
+    if pl == "global+env-skip":
+        return 'diff {\n%s}\nenv "e" {\n%sdiff {\n%s}\n}\n' % (skip_inner(case["global_skip"]), env, inner)
+    if pl == "env+unrelated":
+        return ('variable "tenant" {\n  type = string\n  default = "none"\n}\nlocals {\n  note = "n-${var.tenant}"\n}\nlint {\n  latest = 1\n}\n'
+                'env "other" {\n  url = "sqlite://other.db"\n  diff {\n    skip {\n      add_table = true\n    }\n  }\n}\n'
+                'env "e" {\n%slint {\n  latest = 2\n}\ndiff {\n%s}\n}\n' % (env, inner))
     return 'env "e" {\n%sdiff {\n%s}\n}\n' % (env, inner)
